@@ -147,6 +147,8 @@ def classify(ctx, f, node):
         k = parity.is_sign(par, FLAGS)
         if k is not None:
             return "SIGN", True, f"{U(par)} (= {k} for min)"
+        if U(amin) == U(amax):
+            return "dual-arms", False, f"{U(par)[:80]}: both arms are identical, the mode test has no effect (nothing is mirrored)"
         if isinstance(amin, ast.Constant) and isinstance(amax, ast.Constant):
             return "SIGN", False, f"{U(par)} does not fold to k / -k"
         if isinstance(amin, ast.Compare) and isinstance(amax, ast.Compare):
@@ -179,6 +181,8 @@ def classify(ctx, f, node):
             a, b = amin[0].value.value, amax[0].value.value
             ok = isinstance(a, (int, float)) and a == -b and a != 0 and U(amin[0].targets[0]) == U(amax[0].targets[0])
             return "SIGN", ok, f"{U(amin[0].targets[0])} = {a} (min) / {b} (max)"
+        if [U(x) for x in amin] == [U(x) for x in amax]:
+            return "dual-arms", False, "both arms are identical, the mode test has no effect (nothing is mirrored)"
         if _window_dual(amin, amax):
             return "window-dual", True, "left = i-1, g = f  <->  left = n-i-1, g = 1-f"
         if _range_reversal(amin, amax):
